@@ -3,4 +3,3 @@ package main
 import "go/types"
 
 type typesPackage = types.Package
-
